@@ -42,6 +42,9 @@ class Harness:
         self.interp = Interp(ctx, None)
         self.interp.theories = theory_np.make_theories(self.interp)
         theory_np.CUR = self.interp
+        from . import theory_ext
+
+        theory_ext.install(self.interp.theories, self.interp)
         from . import values
 
         values.PC_PROVIDER[0] = lambda: self.interp.ctx.pc
@@ -258,7 +261,9 @@ def run_unit(udesc, tier="quick", timeout_ms=None, known=None):
     out["paths"] = len(results)
     out["srcs"] = udesc.get("_srcs", {})
     out["notes"] = {k: sorted(v) if isinstance(v, set) else list(v)[:50] for k, v in ex.notes.items()}
-    out["trusted"] = list(theory_np.TRUSTED)
+    from . import frames as _fr, theory_ext as _te
+
+    out["trusted"] = list(theory_np.TRUSTED) + list(_fr.TRUSTED) + list(_te.TRUSTED)
     from . import sums
 
     out["lemmas"] = list(sums.LEMMAS_USED)
